@@ -810,7 +810,44 @@ impl Instruction {
                 for qubit in other.get_qubits_mut() {
                     qubit.resolve_placeholder(&qubit_resolver);
                 }
+                for qubit in other.get_frame_update_qubits_mut() {
+                    qubit.resolve_placeholder(&qubit_resolver);
+                }
             }
+        }
+    }
+
+    /// Return references to the [`Qubit`]s in the frames of frame-updating instructions
+    /// (`SET-*`, `SHIFT-*`, `SWAP-PHASES`), which [`Self::get_qubits`] does not report.
+    pub(crate) fn get_frame_update_qubits(&self) -> Vec<&Qubit> {
+        match self {
+            Instruction::SetFrequency(SetFrequency { frame, .. })
+            | Instruction::SetPhase(SetPhase { frame, .. })
+            | Instruction::SetScale(SetScale { frame, .. })
+            | Instruction::ShiftFrequency(ShiftFrequency { frame, .. })
+            | Instruction::ShiftPhase(ShiftPhase { frame, .. }) => frame.qubits.iter().collect(),
+            Instruction::SwapPhases(SwapPhases { frame_1, frame_2 }) => {
+                frame_1.qubits.iter().chain(&frame_2.qubits).collect()
+            }
+            _ => vec![],
+        }
+    }
+
+    fn get_frame_update_qubits_mut(&mut self) -> Vec<&mut Qubit> {
+        match self {
+            Instruction::SetFrequency(SetFrequency { frame, .. })
+            | Instruction::SetPhase(SetPhase { frame, .. })
+            | Instruction::SetScale(SetScale { frame, .. })
+            | Instruction::ShiftFrequency(ShiftFrequency { frame, .. })
+            | Instruction::ShiftPhase(ShiftPhase { frame, .. }) => {
+                frame.qubits.iter_mut().collect()
+            }
+            Instruction::SwapPhases(SwapPhases { frame_1, frame_2 }) => frame_1
+                .qubits
+                .iter_mut()
+                .chain(&mut frame_2.qubits)
+                .collect(),
+            _ => vec![],
         }
     }
 }
